@@ -350,6 +350,20 @@ def check_shared_writes(P, R, rid, strict=False, same_for_all_threads_ok=False, 
     strict=False (C09): only writes that carry request-derived data into such a location and are not preceded, on every
     path, by a reset of that location (scratch use) - i.e. the ones that can carry data into a later request or grow."""
     ws = E.shared_writes(P, analysed_funcs(P)) + E.extra_shared_writes(P, analysed_funcs(P))
+    # stores into the application object / the routing structures hanging off it, made on the request path (one obligation per statement)
+    have = {(w['func'].fq, id(w['node'])) for w in ws}
+    for w in E.shared_object_writes(P, config_time=CONFIG_TIME_FUNCS):
+        pf_ = w['func']
+        cfg_time = False
+        while pf_ is not None:
+            cfg_time = cfg_time or pf_.name in CONFIG_TIME_FUNCS
+            pf_ = pf_.parent
+        if cfg_time or (w['func'].fq, id(w['node'])) in have:
+            continue
+        if not strict and w['kind'] == 'attr-assign':
+            continue      # a plain attribute rebound by every request carries nothing over and does not grow (its visibility between threads is C08's)
+        have.add((w['func'].fq, id(w['node'])))
+        ws.append(w)
     seen = set()
     for w in ws:
         f = w['func']
